@@ -47,7 +47,7 @@ LEVEL_NOTE = ("Trusts python re for RE: patterns and bzrformats' Rust Replacer /
               "normalize_pattern as part of the subject's translation; globs "
               "outside the documented forms ('**' not followed by '/', "
               "backslashes, named classes) are not generated.")
-REGISTERED = False
+REGISTERED = True
 NONTRIVIAL_FLOOR = {"quick": 400, "thorough": 10000}
 
 # ---------------------------------------------------------------- alphabet
@@ -639,12 +639,12 @@ def _ref_ignored(pats, f):
 def kinds(tier):
     return [
         Kind("globster", run_globster, strategy=gen_case(),
-             examples={"quick": 2400, "thorough": 90000}),
+             examples={"quick": 2400, "thorough": 120000}),
         Kind("exceptions", run_exceptions, strategy=gen_case(exceptions=True),
-             examples={"quick": 1600, "thorough": 50000}),
+             examples={"quick": 1600, "thorough": 70000}),
         Kind("tree-is-ignored", run_tree,
              strategy=gen_case(exceptions=True, names=3),
-             examples={"quick": 320, "thorough": 6000}),
+             examples={"quick": 320, "thorough": 10000}),
         Kind("re-inline-flags", run_flags, strategy=gen_flags(),
              examples={"quick": 64, "thorough": 800}),
         Kind("re-literal-paren", run_paren, strategy=gen_paren(),
